@@ -25,6 +25,9 @@ STAGES = {
     "C08": [S("regress", "^TestC08Regress$"),
             S("limits", "^TestC08$", quick=250, thorough=2500, shards=(6, 16), timeout=("15m", "90m")),
             S("bombs", "^TestC08Bombs$", tiers=("thorough",))],
+    "C09": [S("regress", "^TestC09Regress$"),
+            S("matrix", "^TestC09$", shards=(8, 16)),
+            S("mixed", "^TestC09Mixed$", quick=3000, thorough=30000, shards=(2, 16))],
     "C16": [S("regress", "^TestC16Regress$"),
             S("schedules", "^TestC16$", quick=3000, thorough=20000, shards=(4, 16)),
             S("schedules-race", "^TestC16$", quick=300, thorough=3000, shards=(2, 16), race=True)],
